@@ -260,8 +260,9 @@ func (e *env) checkWeakSecond(w *weak, in inputs, ad []byte) string {
 			info = ki
 		}
 	}
-	h := acc[0].h
-	sub.what += " / reader " + acc[0].reader
+	chosen := int(in.pick % uint64(len(acc)))
+	h := acc[chosen].h
+	sub.what += " / reader " + acc[chosen].reader
 	res := sub.runFactory(w.group, h, info, in) // general oracle: the healthy primary produces, the handle accepts
 	if res.outcome == oInconsistent {
 		sub.failf("factory group %q returned a primitive that is not self-consistent: %s", w.group, res.detail)
